@@ -57,6 +57,29 @@ func (x *AccRoot) SetFp(v string)            { x.XFp = v }
 func (x *AccRoot) GetCe() *AccCe             { return x.XCe }
 func (x *AccRoot) SetCe(v *AccCe)            { x.XCe = v }
 
+// Rpcs of the fixture schema are served by methods, found by nodeutil.Node's
+// reflection-based action handling: zzact echoes its input, zznoin takes none.
+type AccActIn struct {
+	Aa string
+	Ab int
+}
+type AccActOut struct {
+	Ob string
+	Oc int
+}
+
+func (x *AccRoot) Zzact(in *AccActIn) (*AccActOut, error) {
+	if in == nil {
+		return &AccActOut{Ob: "nil-input:" + x.XFa}, nil
+	}
+	return &AccActOut{Ob: in.Aa + "@" + x.XFa, Oc: in.Ab + 1}, nil
+}
+
+// (the YANG rpc declares no input; the Go method takes a parameter all the same)
+func (x *AccRoot) Zznoin(in *AccActIn) (*AccActOut, error) {
+	return &AccActOut{Ob: "noin@" + x.XFa}, nil
+}
+
 type AccCa struct {
 	XFe string   `verif:"fe"` // GetFe / SetFe
 	Ff  int      `verif:"ff"`
@@ -174,7 +197,7 @@ func AccFixture() *schema.Node {
 	fd.Enums = []string{"red", "green", "blue"}
 	ld := list("ld", []string{"kd"}, leaf("kd", "string"), leaf("fn", "string"))
 	ld.MapList = true
-	m := &schema.Node{Kind: schema.Module, Name: "m", Children: []*schema.Node{
+	m := &schema.Node{Kind: schema.Module, Name: "m", Actions: true, Children: []*schema.Node{
 		leaf("fa", "string"), leaf("fb", "int32"), leaf("fc", "int64"), fd,
 		ll("lla", "string"), ll("llb", "int32"),
 		cont("ca", leaf("fe", "string"), leaf("ff", "int32"),
